@@ -3861,3 +3861,91 @@ func c15R12(c *Ctx, r *Report) {
 			"the prefix is left off under the further condition `"+bad+"`: the functions of that module keep their source names, and one of them can spell the prefixed name of another module's function — `fn mang_0a_F()` in the entry module and `F` in module mang/a are both emitted as mang_0a_F (\"multiple definition\", link failure)")
 	}
 }
+
+// ---- C01.R18: a captured variable is boxed where it is declared ---------------------------------------------------
+
+func init() {
+	lateInits = append(lateInits, func() {
+		props["C01"].Quick = append(props["C01"].Quick, c01R18)
+		props["C09"].Quick = append(props["C09"].Quick, c01R18)
+		props["C01"].Explanation += " (R18) a local variable that a function literal captures gets its heap box at its declaration: HIR generation marks the symbol of every capture (Symbol.Captured), and lowerDeclItem calls boxCapturedIdent under a test of that mark — so the box exists on every path that reads the variable, also when the literal sits in a branch that is not taken or in a loop whose condition was lowered before it."
+	})
+}
+
+func c01R18(c *Ctx, r *Report) {
+	const rule = "C01.R18"
+	r.Describe(rule, "hir/gen lowerFuncLit assigns Symbol.Captured = true inside a range over the literal's Captures; mir/gen lowerDeclItem calls boxCapturedIdent under a condition that reads Symbol.Captured; the field is written nowhere else")
+	fld := c.fieldObj(pkgSymbols, "Symbol", "Captured")
+	lf := c.LookupFn("internal/hir/gen", "(*Generator).lowerFuncLit")
+	ld := c.LookupFn(pkgMIRGen, "(*functionBuilder).lowerDeclItem")
+	box := c.LookupFn(pkgMIRGen, "(*functionBuilder).boxCapturedIdent")
+	if !r.Anchor(rule, lf != nil && ld != nil && box != nil, "hir/gen lowerFuncLit / mir/gen lowerDeclItem / boxCapturedIdent") {
+		return
+	}
+	if fld == nil {
+		r.Fail(rule, ld.Name(), "captured variables are boxed at their declaration", c.pos(ld.Decl.Pos()),
+			"symbols carry no mark for `captured by a function literal`: the heap box of a captured variable is made where the literal is lowered, and every read lowered after that point uses the box — also on paths that never ran the literal. `let total := 10; if flag { let add := fn(n: i32) { total = total + n; }; add(5); } return total;` crashes with SIGSEGV for flag == false, and a `while n < 4 { let h := fn() -> i32 { return n * 10; }; …; n = n + 1; }` never ends")
+		return
+	}
+	// (a) marking
+	marks := false
+	ast.Inspect(lf.Decl.Body, func(x ast.Node) bool {
+		rs, ok := x.(*ast.RangeStmt)
+		if !ok || !strings.HasSuffix(exprStr(rs.X), ".Captures") {
+			return true
+		}
+		ast.Inspect(rs.Body, func(y ast.Node) bool {
+			if as, ok := y.(*ast.AssignStmt); ok && len(as.Lhs) == 1 && len(as.Rhs) == 1 {
+				if sel, ok := ast.Unparen(as.Lhs[0]).(*ast.SelectorExpr); ok && lf.Info().Uses[sel.Sel] == fld {
+					if v := constOf(lf.Info(), as.Rhs[0]); v != nil && boolVal(v) {
+						marks = true
+					}
+				}
+			}
+			return true
+		})
+		return true
+	})
+	r.Check(marks, rule, lf.Name(), "every capture marks its symbol", c.pos(lf.Decl.Pos()), "a function literal's captures are not marked on their symbols: the declaration cannot know that the variable needs a box")
+	// (b) boxing at the declaration
+	boxes := false
+	ast.Inspect(ld.Decl.Body, func(x ast.Node) bool {
+		ifs, ok := x.(*ast.IfStmt)
+		if !ok {
+			return true
+		}
+		reads := false
+		ast.Inspect(ifs.Cond, func(y ast.Node) bool {
+			if sel, ok := y.(*ast.SelectorExpr); ok && ld.Info().Uses[sel.Sel] == fld {
+				reads = true
+			}
+			return true
+		})
+		if reads && nodeCalls(ld.Info(), ifs.Body, box.Obj) != nil {
+			boxes = true
+		}
+		return true
+	})
+	r.Check(boxes, rule, ld.Name(), "captured variables are boxed at their declaration", c.pos(ld.Decl.Pos()),
+		"the box of a captured variable is made only where the literal is lowered: reads lowered later use it on paths that never created it (SIGSEGV when the literal's branch is not taken), reads lowered earlier keep the stack slot (a loop condition never sees the updates)")
+	// (c) writers
+	n := 0
+	for _, p := range c.Pkgs {
+		for _, fn := range c.AllFns(relOf(p.PkgPath)) {
+			ast.Inspect(fn.Decl.Body, func(x ast.Node) bool {
+				as, ok := x.(*ast.AssignStmt)
+				if !ok {
+					return true
+				}
+				for _, l := range as.Lhs {
+					if sel, ok := ast.Unparen(l).(*ast.SelectorExpr); ok && fn.Info().Uses[sel.Sel] == fld {
+						n++
+						r.Check(fn.Obj == lf.Obj, rule, fn.Name(), "writes Symbol.Captured", c.pos(as.Pos()), "the capture mark is written outside the lowering of function literals")
+					}
+				}
+				return true
+			})
+		}
+	}
+	r.Floor(rule, n, 1, "writes of Symbol.Captured")
+}
